@@ -16,3 +16,7 @@ Inductive astmt :=
 | ARet.                   (* unconditional return at top level *)
 
 Record meth := mkM { m_name : string; m_exported : bool; m_body : list astmt }.
+
+(* shapes of the two Close methods (files.go VFS.Close, resource.go closeableResource.Close) *)
+Inductive vshape := VPropagate | VUnknown.
+Inductive rshape := RCloseThenFlag | RUnknown.
